@@ -154,3 +154,40 @@ def run(tier):
     C.assumptions.append("random.randrange's contract (a <= r < b; ValueError on an empty range) - the random source is substituted")
     C.assumptions.append("int(x / 7) = truncating quotient: exact for |x| < 2^26 (floats), values here are < 2000")
     return C.finish(search=search)
+
+
+KINDS = dict(account=('AccountReplySequenceStart', 'from_value', (240,)), init=('InitSequenceStart', 'from_init_values', (1757, 253, 253)),
+             ping=('PingSequenceStart', 'from_ping_values', (1757, 253 ** 2, 253)))
+
+
+def judge(mod, kind, sels):
+    """the property oracle for one scripted outcome of <kind>.generate(): None or what is wrong"""
+    cn, rn, lims = KINDS[kind]
+    cls = getattr(mod, cn)
+    r, src = outcome(mod, cls, sels)
+    if r[0] != 'ok':
+        return f"{kind}.generate() failed with {r[1]} for draws {src.draws} (requests {src.requests})"
+    f = fields(r[1])
+    bad = None
+    if not (0 <= f[0] < lims[0]):
+        bad = f"value {f[0]} outside its documented range"
+    for x, hi in zip(f[1:], lims[1:]):
+        if not (0 <= x < hi):
+            bad = f"wire component {x} does not fit its field (< {hi})"
+    rr = pyexc(getattr(cls, rn), *(f[1:] if len(f) > 1 else f))
+    if rr[0] != 'ok' or fields(rr[1]) != f:
+        bad = f"from-values constructor gives {fields(rr[1]) if rr[0] == 'ok' else rr} instead of {f}"
+    return f"{kind}: outcome {f} for draws {src.draws}: {bad}" if bad else None
+
+
+def replay(path):
+    import json
+    r = json.load(open(path))
+    inp = r.get('input')
+    if not inp or 'selectors' not in inp:
+        return replay_broken(r, 'C12')
+    s = Scratch()
+    mod = load_leaf(s.src, 'eolib.packet.sequence_start')
+    w = judge(mod, r['unit'].split('.')[-1], inp['selectors'])
+    print("replay:", w or "property holds on this input")
+    return 1 if w else 0
